@@ -155,6 +155,8 @@ def generate(rng, tier, idx, force=None):
         requests.append(rng.choice(("/../outside/secret.html", "../outside/secret.html",
                                     "/sub/../../outside/secret.html", "\\..\\outside\\secret.html",
                                     "/missing.html", "/sub/missing.html")))
+    # the URIs that put_string / put_template register are looked up too
+    requests += ["/p.html", "/t.html"]
     nd = cfg["ndirs"]
     files = []
     for i in range(nuri):
@@ -202,8 +204,17 @@ def generate(rng, tier, idx, force=None):
         elif r < 0.94:
             ops.append(["put_string", rng.choice(("/p.html", "/q.html", uspecs[i]["uri"])), rng.randint(1, 9)])
         elif r < 0.97:
-            ops.append(["put_template", rng.choice(("/p.html", "/t.html", uspecs[i]["uri"])),
-                        rng.choice(("string", "file")), i, d])
+            key = rng.choice(("/p.html", "/t.html", uspecs[i]["uri"]))
+            mode = rng.choice(("string", "file"))
+            ops.append(["put_template", key, mode, i, d])
+            if mode == "file" and rng.random() < 0.6:
+                # the registered file changes later; the entry must follow it under its key
+                ops.append(["get", key])
+                ops.append(["advance", rng.choice(adv)])
+                ops.append(["write", i, d, "now"])
+                ops.append(["advance", rng.choice(adv)])
+                ops.append(["get", key])
+                ops.append(["get", key])
         else:
             ops.append(["restart"])
     if sub and rng.random() < 0.12:
@@ -248,6 +259,40 @@ def trace_size(trace):
 
 
 # ------------------------------------------------------------------ harness
+class LockLeak(BaseException):
+    pass
+
+
+class CheckedLock:
+    """Stands in for TemplateLookup._mutex in the single-threaded C14 runs: acquiring it while it is still
+    held (an earlier call failed without releasing it) would block for ever; report that instead of hanging."""
+
+    def __init__(self):
+        self.held = False
+        self.leaks = 0
+
+    def acquire(self, blocking=True, timeout=-1):
+        if self.held:
+            self.leaks += 1
+            self.held = False  # recover so that the rest of the history can be judged
+            raise LockLeak()
+        self.held = True
+        return True
+
+    def release(self):
+        if not self.held:
+            raise RuntimeError("release unlocked lock")
+        self.held = False
+
+    def locked(self):
+        return self.held
+
+    __enter__ = acquire
+
+    def __exit__(self, *a):
+        self.release()
+
+
 class Harness:
     def __init__(self, trace, root):
         import mako.lookup
@@ -319,6 +364,7 @@ class Harness:
             directories=list(self.dirs), module_directory=self.moddir,
             filesystem_checks=cfg["fs_checks"], collection_size=cfg["collection_size"])
         self.model.restart()
+        self.lookup._mutex = CheckedLock()
         real_get = self.lookup.get_template
         harness = self
 
@@ -347,6 +393,14 @@ class Harness:
             obj = real_get(uri)
         except SeamCapExceeded:
             raise
+        except LockLeak as e:
+            self.viol.append(("C14/lookup-poisoned", "get_template(%r) would block for ever: the lookup's mutex is still held by an earlier "
+                              "call that failed without releasing it" % uri))
+            outcome = ("raised", ["LockLeak", "BaseException"], "mutex still held")
+            exc = RuntimeError("mutex leaked")
+            self.model.cache.pop(uri, None)
+            self.records.append((uri, outcome))
+            raise exc
         except Exception as e:
             outcome = ("raised", [c.__name__ for c in type(e).__mro__], str(e))
             exc = e
@@ -495,7 +549,9 @@ class Harness:
                 f = self.model.files.get(p)
                 if f is None or f.health != "ok" or p in self.model.unreadable or self.uspecs[i]["kind"] != "plain":
                     return
-                t = self.Template(filename=p, uri=uri, lookup=self.lookup)  # harness-side: no seams, no faults
+                # harness-side construction (no seams, no faults); the Template's own uri is its natural one,
+                # which need not be the key it is registered under
+                t = self.Template(filename=p, uri=self.uspecs[i]["uri"], lookup=self.lookup)
                 tag, kind, path = f.tag, "file", p
             self.keep.append(t)
             self.lookup.put_template(uri, t)
